@@ -184,6 +184,13 @@ func (x *fx) eval(e *Expr, env *specEnv) *Val {
 			}
 		}
 		panic(specErr("unbound name " + e.Name))
+	case "athead":
+		// value of the operand at the head of the loop an `assert back=N` belongs to
+		// (evaluated there, after the invariants were assumed: the start of the iteration)
+		if v := x.atHead[e]; v != nil {
+			return v
+		}
+		panic(specErr("athead() is only available inside assert back=N"))
 	case "old":
 		if env.old == nil {
 			return x.eval(e.Args[0], env)
